@@ -18,7 +18,7 @@ ID = "C13"
 LEVEL = "exploration"
 RULE = ("case = (function family, parameter tuple, memo regime); exhaustive sweep of all tuples within the tier's "
         "bound plus Hypothesis-drawn larger tuples; for each, ALL indices 0..N-1 are unranked when N <= 60000 "
-        "(otherwise 300 Hypothesis-drawn indices); non-trivial = the arrangement count N >= 2; distinct = distinct "
+        "(otherwise up to 100 Hypothesis-drawn runs of 4 consecutive indices, runs around 2^31/2^32/2^53/2^63/2^64/2^106 and both ends); non-trivial = the arrangement count N >= 2; distinct = distinct "
         "(family, params, memo) tuples")
 ASSUMPTIONS = ["brute-force enumerators in vp/props/c13.py are correct (cross-checked against closed-form counts)",
                "indices outside 0..N-1 are outside the property"]
@@ -281,7 +281,8 @@ def _run_chunk(cases):
         n = case_count(case)
         fails = check_case(case)
         acc.case(case, n >= 2, labels=[case["family"], "memo-" + case.get("memo", "na"),
-                                       "sampled-indices" if case.get("indices") is not None else "all-indices"])
+                                       "sampled-indices" if case.get("indices") is not None else "all-indices"]
+                 + (["N>2^53"] if n > 2 ** 53 else []) + (["N>2^64"] if n > 2 ** 64 else []))
         acc.extra["indices_unranked"] = acc.extra.get("indices_unranked", 0) + \
             (n if case.get("indices") is None else len(case["indices"]))
         for f in fails:
@@ -296,14 +297,15 @@ def big_case(draw):
     fam = draw(st.sampled_from(["extract", "comb", "comb-wo", "perm-prefix", "perm-copies", "perm-varying",
                                 "prefix-uniform", "prefix-counters", "prefix-uniform", "prefix-counters"]))
     if fam == "extract":
-        P = {"sizes": draw(st.lists(st.integers(1, 12), min_size=1, max_size=7))}
+        P = {"sizes": draw(st.lists(st.integers(1, 12), min_size=1, max_size=draw(st.sampled_from([7, 7, 40]))))}
     elif fam == "comb":
-        P = {"l": draw(st.integers(0, 12)), "n": draw(st.integers(1, 9))}
+        # long sequences of an independent factor are ordinary use (MinimumTrials(64) over a 2-level factor)
+        P = {"l": draw(st.one_of(st.integers(0, 12), st.integers(13, 90))), "n": draw(st.integers(1, 9))}
     elif fam == "comb-wo":
-        n = draw(st.integers(1, 40))
+        n = draw(st.one_of(st.integers(1, 40), st.integers(41, 90)))
         P = {"n": n, "m": draw(st.integers(0, n))}
     elif fam == "perm-prefix":
-        n = draw(st.integers(1, 25))
+        n = draw(st.one_of(st.integers(1, 25), st.integers(26, 60)))
         P = {"n": n, "m": draw(st.integers(0, n))}
     elif fam == "perm-copies":
         P = {"q": draw(st.integers(1, 8)), "m": draw(st.integers(1, 6))}
@@ -330,10 +332,19 @@ def big_case(draw):
         case["memo"] = draw(st.sampled_from(["shared", "fresh"]))
     N = case_count(case)
     if N > FULL_LIMIT:
-        k = 120 if N > 10 ** 30 else 300
-        idxs = draw(st.lists(st.integers(0, N - 1), min_size=1, max_size=k, unique=True))
-        # always include the two ends
-        case["indices"] = sorted(set(idxs) | {0, N - 1})
+        k = 40 if N > 10 ** 30 else 100
+        # indices come in runs of consecutive values (a map that merges neighbouring indices - lost low-order digits,
+        # rounding - is not injective, and independent random indices never collide), around machine-word and
+        # float-mantissa boundaries where they exist, and at the two ends
+        bases = draw(st.lists(st.integers(0, N - 1), min_size=1, max_size=k, unique=True))
+        marks = [b for b in (2 ** 31, 2 ** 32, 2 ** 53, 2 ** 63, 2 ** 64, 2 ** 106, N // 2, N - 3) if 0 <= b < N]
+        marks = draw(st.lists(st.sampled_from(marks), max_size=4, unique=True)) if marks else []
+        idxs = {0, N - 1}
+        for b in list(bases) + list(marks):
+            for d in (-1, 0, 1, 2):
+                if 0 <= b + d < N:
+                    idxs.add(b + d)
+        case["indices"] = sorted(idxs)
     return case
 
 
